@@ -19,6 +19,7 @@ TECHNIQUE = "Coq theorems on per-source kerning and variable scalars at master l
 RULE = ("families of 2-3 compatible masters on one axis (plus 4-corner two-axis families), kerning that differs per master incl. "
         "pairs present in one master only, top/_top anchors, x {compileVariableTTF, compileVariableCFF2} x variableFeatures "
         "{True, False} x both UFO libraries. Non-trivial = every (family, function, master) triple.")
+F14_SIG = "variable-features-anchor-added-by-filter"
 ASSUMPTIONS = ["fontTools.varLib.instancer.instantiateVariableFont evaluates the variation data as a renderer would"]
 
 
@@ -70,6 +71,25 @@ def explore(ctx):
         masters = [base] + [dsgen.perturb(rng, base, k, amount=40) for k in range(1, n)]
         names = [g["name"] for g in base["glyphs"]]
         vfeat = rng.random() < 0.5
+        # class kerning: a class/class pair and a glyph/class exception, values differing per master
+        groups = {"public.kern1.L": [names[0]], "public.kern2.R": [names[1], names[2]]}
+        for k, m in enumerate(masters):
+            m["groups"] = dict(groups)
+            m["kerning"][("public.kern1.L", "public.kern2.R")] = Fr(-50 - 15 * k)
+            m["kerning"][(names[2], "public.kern2.R")] = Fr(12 + 4 * k)
+        if vfeat and rng.random() < 0.6:
+            # ... and 0 in one non-default master (with merged per-master layout the pair sets must be identical)
+            masters[rng.randrange(1, n)]["kerning"][("public.kern1.L", "public.kern2.R")] = Fr(0)
+        propagate = (i % 5 == 3) and any(g["components"] for g in base["glyphs"])
+        if propagate:
+            vfeat = (i // 5) % 2 == 0
+        if propagate:
+            # composites get their anchors from a propagateAnchors filter in the lib (only in the glyph sets being compiled)
+            for m in masters:
+                for g in m["glyphs"]:
+                    if g["components"]:
+                        g["anchors"] = []
+                m.setdefault("lib", {})["com.github.googlei18n.ufo2ft.filters"] = [{"name": "propagateAnchors", "pre": True}]
         if vfeat:
             # a kerning pair present in the last master only (with layout merged per master fontTools' varLib
             # merger needs every pair in the default master: "Base master not found" -- environment limit)
@@ -93,12 +113,17 @@ def explore(ctx):
                 ref_ds = ufo2ft.compileInterpolatableOTFsFromDS(ds)
             refs = [s.font for s in ref_ds.sources]
         except Exception as e:
-            ctx.spec_failure(case, "%s raised %s: %s\n%s" % (fn, type(e).__name__, e, traceback.format_exc()[-1200:]))
+            sig = None
+            if propagate and vfeat and isinstance(e, TypeError) and "cannot unpack non-iterable NoneType" in str(e) \
+                    and "_getAnchor" in traceback.format_exc():
+                sig = F14_SIG
+            ctx.spec_failure(dict(case, propagateAnchors_filter=propagate),
+                             "%s raised %s: %s\n%s" % (fn, type(e).__name__, e, traceback.format_exc()[-1200:]), signature=sig)
             continue
         tagmap = {a.name: a.tag for a in ds.axes}
         for k, loc in enumerate(locs):
             ctx.count()
-            ctx.klass("%s/vfeat=%s%s" % (fn, vfeat, "/2axes" if two_axes else ""))
+            ctx.klass("%s/vfeat=%s%s%s" % (fn, vfeat, "/2axes" if two_axes else "", "/propagateAnchors" if propagate else ""))
             ctx.nontriv((fn, i, k, ctx.scale))
             c2 = dict(case, master=k, location=loc)
             try:
@@ -127,8 +152,20 @@ def explore(ctx):
             allkeys = set()
             for mm in masters:
                 allkeys |= set(mm["kerning"])
-            for (g1, g2) in sorted(allkeys):
-                want = geom.ot_round(m["kerning"].get((g1, g2), 0))
+            def ufo_value(m, g1, g2):
+                c1 = next((c for c, mem in m.get("groups", {}).items() if c.startswith("public.kern1.") and g1 in mem), None)
+                c2 = next((c for c, mem in m.get("groups", {}).items() if c.startswith("public.kern2.") and g2 in mem), None)
+                for key in ((g1, g2), (g1, c2), (c1, g2), (c1, c2)):
+                    if None not in key and key in m["kerning"]:
+                        return m["kerning"][key]
+                return 0
+            glyph_pairs = set()
+            for (a, b) in allkeys:
+                for g1 in (groups.get(a) or [a]):
+                    for g2 in (groups.get(b) or [b]):
+                        glyph_pairs.add((g1, g2))
+            for (g1, g2) in sorted(glyph_pairs):
+                want = geom.ot_round(ufo_value(m, g1, g2))
                 got = lay.pair_adjust(lk, g1, g2)[0]
                 if got != want:
                     ctx.spec_failure(dict(c2, pair=[g1, g2]), "kerning %s %s at master %d's location is %r, the master UFO has %r" % (g1, g2, k, got, want))
